@@ -277,8 +277,8 @@ func genStep(r *rng.R, n, f int, bt time.Duration, lagging, isVal []bool, allowP
 		return false
 	}
 	c := netCfg{}
-	kinds := []string{"lossy", "cut", "mute", "deaf", "late", "mixed", "partition", "dup-reorder", "commit-split"}
-	w := []int{3, 3, 2, 2, 3, 4, 3, 2, 4}
+	kinds := []string{"lossy", "cut", "mute", "deaf", "late", "mixed", "partition", "dup-reorder", "commit-split", "lost-proposal"}
+	w := []int{3, 3, 2, 2, 3, 4, 3, 2, 4, 2}
 	if !allowPartition {
 		w[6] = 0
 	}
@@ -344,6 +344,14 @@ func genStep(r *rng.R, n, f int, bt time.Duration, lagging, isVal []bool, allowP
 		c.TypeLoss = 85 + r.Intn(16)
 		c.LossTypes = []string{"PrepareResponse", "RecoveryMessage"}
 		c.LossView = 0
+		c.MaxDelay = bt * time.Duration(r.Intn(30)) / 100
+	case "lost-proposal":
+		// nobody receives the view-0 proposal (nor a recovery message replaying
+		// it): every height is settled at a later view, by a later primary
+		c.TypeLoss = 100
+		c.LossTypes = []string{"PrepareRequest", "RecoveryMessage"}
+		c.LossView = 0
+		c.Favoured = make([]bool, n)
 		c.MaxDelay = bt * time.Duration(r.Intn(30)) / 100
 	case "partition":
 		nVal := 0
